@@ -44,6 +44,10 @@ for line in open(res):
             if os.path.exists(os.path.join(src, f)):
                 shutil.copy(os.path.join(src, f), os.path.join(dst, f))
         json.dump(d, open(os.path.join(dst, "meta.json"), "w"), indent=1)
+last = {}
+for d in rows:
+    last[d["id"]] = d          # a seed that was re-run (e.g. after porting its patch) counts with its latest result
+rows = [last[k] for k in sorted(last)]
 json.dump(rows, open(os.path.join(HERE, "seeded", "SUMMARY.json"), "w"), indent=1)
 for d in rows:
     print("%-6s confirmed=%-5s detected_by=%s" % (d["id"], d["confirmed"], d["detected_by"]))
